@@ -43,6 +43,27 @@ def classifyRead (big : Bool) (items : List String) : Except String Nat :=
     else if sameNames names (linStateNames big (2 * v)) then .ok (2 * v)
     else .error s!"List() returned {items}, which is neither the complete state of version {v} nor its shrunk successor"
 
+/-- the states a Get may have read: inside its real-time window, and holding the key at the returned version -/
+def getStates (big : Bool) (wcall wret : Array Nat) (n : Nat) (g : Nat × Nat × String × Option Nat) : List Nat :=
+  let (c, r, key, v) := g
+  (List.range (n + 1)).filter fun k =>
+    (k == 0 || wcall.getD k 0 < r) && (k == n || c < wret.getD (k + 1) 0) &&
+    (if (linStateNames big k).contains key then v == some ((k + 1) / 2) else v == none)
+
+/-- real-time order between reads that may each have read several states: (call, ret, lo, hi). A read that is
+called after another one has returned cannot have read an older state: its newest candidate must not be older than
+the oldest candidate of the earlier one. Returns a violating read together with the bound it misses. -/
+def orderBad (items : List (Nat × Nat × Nat × Nat)) : Option ((Nat × Nat × Nat × Nat) × Nat) :=
+  let a := items.mergeSort (fun x y => x.1 ≤ y.1)
+  let b := items.mergeSort (fun x y => x.2.1 ≤ y.2.1)
+  let step (acc : List (Nat × Nat × Nat × Nat) × Nat × Option ((Nat × Nat × Nat × Nat) × Nat)) (x : Nat × Nat × Nat × Nat) :=
+    let (b, m, bad) := acc
+    if bad.isSome then acc else
+    let (done, rest) := b.span (fun y => y.2.1 < x.1)
+    let m := done.foldl (fun m y => max m y.2.2.1) m
+    if x.2.2.2 < m then (rest, m, some (x, m)) else (rest, m, none)
+  (a.foldl step (b, 0, none)).2.2
+
 def linLine (st : NState) (e : SExp) : NState × String :=
   match e with
   | .list [.atom "scenario", _, .atom m] => ({ big := m == "lin-big" }, "ok")
@@ -79,7 +100,22 @@ def linLine (st : NState) (e : SExp) : NState × String :=
         !((List.range (n + 1)).any (fun k =>
           (k == 0 || wcall k < r) && (k == n || c < wret (k + 1)) &&
           (if (linStateNames st.big k).contains key then v == some ((k + 1) / 2) else v == none))))
+      -- (4) Gets and Lists together in real-time order: a Get pins the cache to the states in which the key has the
+      -- returned version; a read called after another one returned must not need an older state
+      let wcallA : Array Nat := ((List.range (n + 2)).map wcall).toArray
+      let wretA : Array Nat := ((List.range (n + 2)).map wret).toArray
+      let items : List (Nat × Nat × Nat × Nat) :=
+        (st.gets.filterMap fun g =>
+          match getStates st.big wcallA wretA n g with
+          | [] => none
+          | k :: ks => some (g.1, g.2.1, (k :: ks).foldl min k, (k :: ks).foldl max k)) ++
+        (st.reads.map fun r => (r.call, r.ret, r.k, r.k))
+      let ordBad := if getBad.isSome then none else orderBad items
       if !writesSequential ws n then (st, "diff the writer's own history is not sequential (harness fault)") else
+      if early.isNone && late.isNone && inv.isNone && getBad.isNone && ordBad.isSome then
+        (st, match ordBad with
+          | some (x, m) => s!"reject C15 a read in [{x.1},{x.2.1}] returned a value the cache held no later than state {x.2.2.2}, although an earlier read had already returned one it held no earlier than state {m}: reads went backwards (a half-applied write was visible)"
+          | none => "ok") else
       match early, late, inv, getBad with
       | some r, _, _, _ => (st, s!"reject C15 reader {r.id} saw state {r.k} in [{r.call},{r.ret}] before its write was issued at {wcall r.k}")
       | _, some r, _, _ => (st, s!"reject C15 reader {r.id} still saw state {r.k} in [{r.call},{r.ret}] after write {r.k + 1} had returned at {wret (r.k + 1)}")
